@@ -198,3 +198,56 @@ fn c14_int_pow_fast_path() {
         kani::cover!(k == 19);
     }
 }
+
+/// compact configurations compute the float powers on demand (libm's powd / powf without std):
+/// each of the 23 + 11 calls the fast path can make is evaluated with a CONCRETE exponent and
+/// must give exactly 10^k.
+fn check_pow10_f64(k: usize) {
+    let x: f64 = unsafe { <f64 as Float>::pow_fast_path(k) };
+    let bits = x.to_bits();
+    let e_field = (bits >> 52) & 0x7FF;
+    let m = ((bits & ((1u64 << 52) - 1)) + (1u64 << 52)) as u128;
+    let e = e_field as i32 - 1075;
+    let p = pow_u128(10, k);
+    assert!(bits >> 63 == 0 && e_field != 0 && e_field != 0x7FF);
+    if e >= 0 {
+        assert!(e <= 40 && (m << (e as u32)) == p, "C14 f64 10^k exact (on-demand power)");
+    } else {
+        let s = (-e) as u32;
+        assert!(s <= 52 && m & ((1u128 << s) - 1) == 0 && (m >> s) == p, "C14 f64 10^k exact (on-demand power)");
+    }
+}
+
+fn check_pow10_f32(k: usize) {
+    let x: f32 = unsafe { <f32 as Float>::pow_fast_path(k) };
+    let bits = f32::to_bits(x) as u64;
+    let e_field = (bits >> 23) & 0xFF;
+    let m = ((bits & ((1u64 << 23) - 1)) + (1u64 << 23)) as u128;
+    let e = e_field as i32 - 150;
+    let p = pow_u128(10, k);
+    assert!(bits >> 31 == 0 && e_field != 0 && e_field != 0xFF);
+    if e >= 0 {
+        assert!(e <= 40 && (m << (e as u32)) == p, "C14 f32 10^k exact (on-demand power)");
+    } else {
+        let s = (-e) as u32;
+        assert!(s <= 23 && m & ((1u128 << s) - 1) == 0 && (m >> s) == p, "C14 f32 10^k exact (on-demand power)");
+    }
+}
+
+/// no_std + compact: every power the fast path can request from the bundled libm
+/// (powd(10, 0..=22), powf(10, 0..=10)), evaluated with concrete exponents.
+#[cfg(all(feature = "compact", not(feature = "std")))]
+#[kani::proof]
+#[kani::unwind(70)]
+fn c14_float_pow10_ondemand_libm() {
+    let mut k = 0;
+    while k <= 22 {
+        check_pow10_f64(k);
+        k += 1;
+    }
+    let mut k = 0;
+    while k <= 10 {
+        check_pow10_f32(k);
+        k += 1;
+    }
+}
